@@ -27,7 +27,7 @@ from symnum.sym import Sym, SymError, new_context, symvars
 from symnum.npproxy import patched
 
 W_LO, W_HI = 30.0, 1500.0
-T_LO, T_HI = 0.01, 3000.0
+T_LO, T_HI = 5e-324, 3000.0   # every positive double up to 3000 K ("arbitrarily low T > 0")
 EXP_OVERFLOW = 709.782712893384      # largest double x with finite exp(x)
 EXP_UNDERFLOW = -745.1332191019411   # exp(x) == 0.0 below this
 
@@ -99,6 +99,10 @@ class KernelTranslator(ast.NodeVisitor):
                 if arg not in self.exps:
                     self.exps[arg] = "E%d" % len(self.exps)
                 return "(fp.sub RNE %s %s)" % (self.exps[arg], fp(1.0))
+            if fname in ("minimum", "maximum") and len(node.args) == 2:
+                a, b = self.tr(node.args[0]), self.tr(node.args[1])
+                # numpy.minimum / maximum propagate NaN (SMT-LIB fp.min / fp.max return the other operand)
+                return "(ite (or (fp.isNaN %s) (fp.isNaN %s)) (_ NaN 11 53) (%s %s %s))" % (a, b, "fp.min" if fname == "minimum" else "fp.max", a, b)
             raise SymError("unsupported call %s in kernel" % fname)
         raise SymError("unsupported node %s in kernel" % type(node).__name__)
 
